@@ -68,6 +68,20 @@ def c05_eval_alias(v, spec):
     return all('mask changed' in d for d in v.get('diffs', ['x']))
 
 
+@pred('C05-pncexpr-wraps-input')
+def c05_pncexpr_wrap(v, spec):
+    # pncexpr() returns a WrapPNC around its input: every variable the
+    # expression does not assign IS the input file's variable object, so a
+    # write through the result lands in the input.  Only changes to input
+    # variables that the result exposes under the same name and that share
+    # memory with them are this mechanism.
+    if v['kind'] != 'result-aliases-input:fn_pncexpr':
+        return False
+    same = {a for a, b in v.get('shared', []) if a == b}
+    names = {d.split(':')[0] for d in v.get('diffs', ['?'])}
+    return bool(names) and names <= same
+
+
 @pred('C06-mask-values-integer')
 def c06_mask_values_int(v, spec):
     # mask(values=x) delegates to numpy.ma.masked_values, which for INTEGER
